@@ -206,6 +206,11 @@ class Prop(BaseProp):
             spelled = rng.choice([inp, "proj", "proj/", ".", "./", "proj/../proj"])
             if spelled in (".", "./"):
                 cwd = inp
+            subs_ = [d_ for d_ in tree.subdirs("") if d_ not in getattr(tree, "virtual", ())]
+            if subs_ and not multi and rng.random() < 0.15:
+                # the run starts in a sub-directory of the input, which is spelled '..'
+                cwd = os.path.join(inp, rng.choice(subs_))
+                spelled = rng.choice(["..", "../", "./..", "../."])
             o = runner.run_main([spelled] + extra_inputs + ["-r"] + base_argv, cwd=cwd, home=home)
             res.see("input_spelling", spelled if not os.path.isabs(spelled) else "<absolute>")
             wit = {"argv": base_argv, "settings": rstcfg, "tree_files": sorted(tree.files), "extra_inputs": extra_inputs}
